@@ -59,6 +59,9 @@ func (e *Exec) execFunc(st *State, fn *ssa.Function, args []Val, bindings []Val,
 		if len(wl)+len(outs) > e.MaxPaths {
 			e.bail("path explosion (> %d paths) in %s", e.MaxPaths, fn.String())
 		}
+		if !e.deadline.IsZero() && time.Now().After(e.deadline) {
+			e.bail("generation budget of %.0f s used up in %s (%d paths pending)", GenBudget.Seconds(), fn.String(), len(wl))
+		}
 	}
 	return outs
 }
